@@ -5,6 +5,7 @@ package quic
 import (
 	"fmt"
 	"testing"
+	"time"
 
 	"golang.org/x/net/internal/verifrt"
 )
@@ -231,6 +232,100 @@ func TestVerif_C23(t *testing.T) {
 		flush(&k)
 	})
 
+	// (3') the L of the statement is what the receiver itself keeps as its largest received
+	// packet number (ackState.largestSeen, which Conn hands to the packet parser): a model sender
+	// whose A comes from the receiver's own ACKs talks to a real ackState through loss, long runs
+	// of packets that are not ack-eliciting, delayed ACKs and acknowledged ACKs (which make the
+	// receiver forget old ranges). Before every packet the receiver's L must be the largest
+	// number it has received, and the packet must decode with it.
+	r.CasesParallel("receiver-largest", r.N(300, 6000), 0, func(c *verifrt.Case) {
+		rng := c.Rng
+		var k counters
+		var acks ackState
+		now := time.Unix(1700000000, 0)
+		pn := int64(rng.Uint64() >> (2 + rng.UintN(62)))
+		if rng.IntN(2) == 0 {
+			pn = int64(rng.IntN(300))
+		}
+		A, truth := int64(-1), int64(0) // ackState reports 0 before anything has arrived
+		if pn > 0 {
+			// the conversation is already under way: the packet before this one has arrived
+			// and has been acknowledged
+			acks.receive(now, appDataSpace, packetNumber(pn-1), true, ecnNotECT)
+			acks.sentAck()
+			A, truth = pn-1, pn-1
+		}
+		elicitPct := []int{5, 20, 50, 100}[rng.IntN(4)]
+		lossPct := []int{0, 0, 5, 30}[rng.IntN(4)]
+		var ackFrames []int64 // largest acknowledged of the ACK frames the receiver has sent
+		var log []string
+		for step := 0; step < 400 && pn < c23max-1000; step++ {
+			n, tr, ok := encode(c, A, pn)
+			if !ok {
+				return
+			}
+			L := int64(acks.largestSeen())
+			if L != truth {
+				c.Describe(map[string]any{"history": log})
+				c.Violation("receiver-largest-received-wrong", "ackState.largestSeen() = %d, the largest packet number received so far is %d (ack-eliciting share %d%%, loss %d%%)", L, truth, elicitPct, lossPct)
+				return
+			}
+			if rng.IntN(100) >= lossPct {
+				if got := int64(decodePacketNumber(packetNumber(L), packetNumber(tr), n)); got != pn {
+					c.Describe(map[string]any{"history": log})
+					c.Violation("decode-wrong-with-the-receivers-own-largest", "pn=%d sent with %d bytes for largest acked A=%d; the receiver's largestSeen()=%d (largest actually received %d): decodePacketNumber=%d", pn, n, A, L, truth, got)
+					return
+				}
+				k.triples++
+				k.byLen[n]++
+				if pn >= int64(1)<<(8*uint(n)) {
+					k.nontrivial++
+				}
+				el := rng.IntN(100) < elicitPct
+				if acks.shouldProcess(packetNumber(pn)) {
+					acks.receive(now, appDataSpace, packetNumber(pn), el, ecnNotECT)
+					truth = max(truth, pn)
+					r.Event("receiver_packets_received", 1)
+					if !el {
+						r.Event("receiver_packets_not_ack_eliciting", 1)
+					}
+					if len(log) < 300 {
+						log = append(log, fmt.Sprintf("recv %d eliciting=%v (sender's A=%d, len %d)", pn, el, A, n))
+					}
+				}
+			}
+			now = now.Add(time.Duration(rng.IntN(30)) * time.Millisecond)
+			if rng.IntN(4) == 0 || acks.shouldSendAck(now) {
+				if nums, _ := acks.acksToSend(now); len(nums) > 0 {
+					acks.sentAck()
+					la := int64(nums.max())
+					ackFrames = append(ackFrames, la)
+					if rng.IntN(100) >= lossPct { // the ACK reaches the sender
+						A = max(A, la)
+					}
+					if len(log) < 300 {
+						log = append(log, fmt.Sprintf("ACK largest=%d ranges=%d", la, len(nums)))
+					}
+				}
+			}
+			if len(ackFrames) > 0 && rng.IntN(8) == 0 {
+				// the sender acknowledges a packet that carried one of those ACK frames
+				acks.handleAck(packetNumber(ackFrames[rng.IntN(len(ackFrames))]))
+				r.Event("receiver_ack_of_ack_processed", 1)
+			}
+			switch rng.IntN(10) {
+			case 0:
+				pn += 1 + int64(rng.IntN(100))
+			case 1:
+				pn += 1 + int64(rng.IntN(3))
+			default:
+				pn++
+			}
+		}
+		flush(&k)
+		r.EvalHash(true, uint64(pn)*0x9e3779b97f4a7c15^uint64(A)*0xbf58476d1ce4e5b9^uint64(elicitPct))
+	})
+
 	// (4) the implementation cites RFC 9000 A.3: compare with the reference on arbitrary
 	// (largest, truncated, length), including values outside any window promise.
 	r.CasesParallel("rfc-a3", r.N(50, 1000), 0, func(c *verifrt.Case) {
@@ -290,4 +385,6 @@ func TestVerif_C23(t *testing.T) {
 	r.Require("encodings_len3", 1000)
 	r.Require("encodings_len4", 1000)
 	r.Require("reference_comparisons", 100000)
+	r.Require("receiver_packets_received", 20000)
+	r.Require("receiver_packets_not_ack_eliciting", 5000)
 }
